@@ -630,6 +630,11 @@ func (e *Evaluator) evalBinaryExpr(expr *ExprBinary) (*Cell, error) {
 			// very call, or in another run) redirect this call
 			bound := NewCell(member.Value)
 			bound.Value.Binding = &left.Value
+			// an assignment to this member must reach the receiver, not this
+			// copy: remember where it would have to be stored (see evalAssignment)
+			key := right.Value.String()
+			bound.Value.Str = &key
+			bound.Value.ParentObj = &left.Value
 			return bound, nil
 		}
 
@@ -794,8 +799,10 @@ func (e *Evaluator) createSpeculativeObjects(specObj *Cell) (*Cell, error) {
 }
 
 func (e *Evaluator) evalAssignment(expr Expr, left *Cell, right *Cell) (*Cell, error) {
-	if left.Value.Tag == ValueNil && left.Value.ParentObj != nil {
-		// speculative object creation
+	if (left.Value.Tag == ValueNil || left.Value.Tag == ValueNativeFn) && left.Value.ParentObj != nil {
+		// speculative object creation. a method found through the prototype is
+		// in the same position as a missing member: assigning to it stores a
+		// member of that name on the receiver
 		var err error
 		left, err = e.createSpeculativeObjects(left)
 		if err != nil {
